@@ -143,4 +143,18 @@ theorem core_publish_blocks_witness :
     let s := lrun [.subscribe (0, 1), .snapshot 1, .acquire 1, .snapshot 2]
     s.holder = some 1 ∧ ¬ Enabled s (.acquire 2) := by decide
 
+/-- What the regenerated fact `muReleasedBeforeMuHandle` (`Spine/Props/C15Gen.lean`) excludes. In the member where
+    `Publish` keeps `mu` until it has `muHandle` (lock hand-over), two publishers at once and a core handler that
+    (un)subscribes deadlock the bus: publication 1 holds `muHandle` and its core handler (0,1) is running (inside
+    `deliver 1`, before `release 1`); publication 2 has taken its snapshot, holds `mu` and waits for `muHandle`. Now the
+    handler's `subscribe` / `unsubscribe` waits for `mu`, publication 2's `acquire` waits for `muHandle`, and
+    `release 1` comes after the handler's call in the program order of the blocked goroutine. In the same schedule the
+    code as written lets the handler proceed (`c15_reentrant_ok`). -/
+theorem handover_deadlock_witness :
+    let evs : List LEv := [.subscribe (0, 1), .snapshot 1, .acquire 1, .snapshot 2, .deliver 1]
+    let s := hrun evs
+    (s.l.holder = some 1 ∧ s.muHolder = some 2 ∧ phaseOf s.l 1 = some 1 ∧
+      ¬ HEnabled s (.unsubscribe (0, 1)) ∧ ¬ HEnabled s (.subscribe (1, 5)) ∧ ¬ HEnabled s (.acquire 2)) ∧
+    (Enabled (lrun evs) (.unsubscribe (0, 1)) ∧ Enabled (lrun evs) (.subscribe (1, 5))) := by decide
+
 end Spine.Props.C15
